@@ -107,6 +107,10 @@ func (interp *Interpreter) importSrc(rPath, importPath string, skipTest bool) (s
 		rootNodes = append(rootNodes, root)
 
 		subRPath := effectivePkg(rPath, importPath)
+		if isPathRelative(importPath) {
+			// The package is located by its path from the main package, not from GOPATH/src.
+			subRPath = relativePath(rPath, importPath)
+		}
 		var list []*node
 		list, err = interp.gta(root, subRPath, importPath, pkgName)
 		if err != nil {
@@ -187,7 +191,12 @@ func (interp *Interpreter) rootFromSourceLocation() (string, error) {
 	if sourceFile == DefaultSourceName || sourceFile == "" {
 		return noRoot, nil
 	}
-	pkgDir, err := filepath.Abs(filepath.Dir(sourceFile))
+	return interp.rootFromDir(filepath.Dir(sourceFile))
+}
+
+// rootFromDir returns the path to the directory dir, relative to $GOPATH/src.
+func (interp *Interpreter) rootFromDir(dir string) (string, error) {
+	pkgDir, err := filepath.Abs(dir)
 	if err != nil {
 		return "", err
 	}
@@ -206,16 +215,21 @@ func (interp *Interpreter) rootFromSourceLocation() (string, error) {
 const noRoot = ".."
 
 // mainRoot returns the root of the dependencies of the package of root rPath. It is rPath, except
-// for the main package given to the interpreter: its imports are resolved from its location, as the
-// ones of any other package. The vendor directories apply only to the packages located below them.
+// for the main package given to the interpreter and the packages imported by a relative path: their
+// imports are resolved from their location, as the ones of any other package. The vendor directories
+// apply only to the packages located below them.
 func (interp *Interpreter) mainRoot(rPath string) string {
-	if rPath != mainID {
-		return rPath
+	var err error
+	switch {
+	case rPath == mainID:
+		rPath, err = interp.rootFromSourceLocation()
+	case isPathRelative(rPath):
+		rPath, err = interp.rootFromDir(filepath.Join(filepath.Dir(interp.name), rPath))
 	}
-	if root, err := interp.rootFromSourceLocation(); err == nil {
-		return root
+	if err != nil {
+		return noRoot
 	}
-	return noRoot
+	return rPath
 }
 
 // pkgDir returns the absolute path in filesystem for a package given its import path
